@@ -1,7 +1,7 @@
 (* Correspondence driver for Model/DataSaver.v over a recorded child; used by
    the generated cases files of C18.  A full result is (picked value, tag);
    the picker of the model run is [fst]. *)
-From Coq Require Import ZArith PrimFloat.
+From Coq Require Import ZArith PrimFloat List.
 From AV Require Import Base.Prelude Base.FloatUtil Model.GenericLearner Model.DataSaver Run.OracleChild.
 
 Definition R := (float * Z)%type.
@@ -41,12 +41,37 @@ Definition out_eqb (m e : lout OL) : bool :=
   | _, _ => false
   end.
 
-Definition case := ((list entry * snap) * list (op OL R * lout OL * option obs))%type.
+(* The histories of the correspondence extend the DataSaver's own operations ([op], the subject of
+   C18_bisimulation / C18_extra_data) by the two other ways its state changes:
+   - [XSetData e]: load / copy_from / _set_data INTO the saver in its present state (which may already
+     hold results) of a state whose extra_data was [e] -- Model/DataSaver.set_data, the subject of
+     C18_roundtrip; the wrapped learner's own _set_data is a recorded call ([CSetData]);
+   - [XInner c]: a call made on the wrapped learner directly, bypassing the DataSaver (data fed to
+     saver.learner): the DataSaver's own fields do not change. *)
+Inductive xop :=
+| XOp (o : op OL R)
+| XSetData (e : list (pt * R))
+| XInner (c : ccall).
+
+Definition xstep (s : dst OL R) (o : xop) : dst OL R * lout OL :=
+  match o with
+  | XOp o => step fst s o
+  | XSetData e => (set_data s (tt, e), LONone)
+  | XInner c => (@DataSaver.mk OL R (snd (advance (child s) c)) (extra s), LONone)
+  end.
+
+Definition xrun (s : dst OL R) (h : list xop) : dst OL R := fold_left (fun s o => fst (xstep s o)) h s.
+
+Definition case := ((list entry * snap) * list (xop * lout OL * option obs))%type.
 
 Definition init_of (c : case) : dst OL R := DataSaver.init OL R (child0 (fst (fst c)) (snd (fst c))).
 
 Definition check (c : case) : option nat :=
-  first_mismatch (@step OL R fst) observe out_eqb obs_eqb (init_of c) 0 (snd c).
+  first_mismatch xstep observe out_eqb obs_eqb (init_of c) 0 (snd c).
 
 Definition is_legal (c : case) : bool :=
-  negb (bad (child (run fst (init_of c) (map (fun x => fst (fst x)) (snd c))))).
+  negb (bad (child (xrun (init_of c) (map (fun x => fst (fst x)) (snd c))))).
+
+(* on histories of DataSaver operations only, [xrun] is the model's [run] *)
+Lemma xrun_ops : forall (h : list (op OL R)) (s : dst OL R), xrun s (map XOp h) = run fst s h.
+Proof. induction h as [|o h IH]; intro s; [reflexivity|]. exact (IH (fst (step fst s o))). Qed.
